@@ -99,9 +99,23 @@ var zeroT = [3]int64{-62135596800, 0, 0}
 
 func c17Pool(r *RNG, n int) []ordItem {
 	instants := [][3]int64{zeroT, {1700000000, 0, 0}, {1700000000, 0, 3600}, {1700000000, 500, 0}, {1700000001, 0, -18000},
-		{1600000000, 999999999, 0}, {0, 0, 0}, {-1, 0, 0}, {1800000000, 1, 7200}}
+		{1600000000, 999999999, 0}, {0, 0, 0}, {-1, 0, 0}, {1800000000, 1, 7200},
+		// instants far from the present (outside what fits a count of nanoseconds in 64 bits)
+		{-8520336000, 0, 0}, {-11644473600, 0, 0}, {10413792000, 0, 0}, {253402300799, 0, 0}, {-62135510400, 0, 0}}
 	var pool []ordItem
 	pool = append(pool, ordItem{}) // untyped nil
+	// every object type in both forms at least once, with pairwise different instants
+	for ti, gt := range objectGoTypes {
+		for pi, ptr := range []bool{true, false} {
+			o := ordItem{GoType: gt, Ptr: ptr}
+			o.Pub = [3]int64{1500000000 + int64(ti*1000+pi*10), 0, 0}
+			o.Upd = zeroT
+			if (ti+pi)%3 == 0 {
+				o.Upd = [3]int64{1500000000 + int64(ti*1000+pi*10) + 5, 0, 3600}
+			}
+			pool = append(pool, o)
+		}
+	}
 	for i := 0; i < n; i++ {
 		o := ordItem{GoType: objectGoTypes[r.Intn(len(objectGoTypes))], Ptr: r.Bool()}
 		if r.Chance(8) {
@@ -212,7 +226,7 @@ func c17Sort(items []ordItem, shuffleSeed int64) string {
 func init() {
 	campaigns["C17"] = func(c *Ctx) {
 		pool := c17Pool(c.R, c.N(40, 120))
-		c.Rule = fmt.Sprintf("pool of %d items (untyped nil, typed nil pointers, the 13 object Go types by value and by pointer; instants: zero, equal instants in different zones, nanosecond differences, random); all ordered pairs go to the correspondence, random triples to the strict-weak-order oracle, shuffled sub-collections to the sort oracle. Non-trivial = at least one non-nil object.", len(pool))
+		c.Rule = fmt.Sprintf("pool of %d items (untyped nil, typed nil pointers, the 13 object Go types by value and by pointer; every type in both forms at least once; instants: zero, equal instants in different zones, nanosecond differences, years 1, 1601, 1700, 2300 and 9999, random); all ordered pairs go to the correspondence, random triples to the strict-weak-order oracle, shuffled sub-collections to the sort oracle. Non-trivial = at least one non-nil object.", len(pool))
 		for _, a := range pool {
 			for _, b := range pool {
 				res, pan := implOrder(a, b)
